@@ -501,6 +501,43 @@ def filter_sibling(ctx, f):
            "the evaluated closure is the argument of Iterator::filter" if used else "the name-comparing closure is not used as Iterator::filter predicate", gm.where)
 
 
+def walk_all(ctx, f):
+    """WALK-ALL (added after seeded change C25): the listing walks the whole subtree — in Node::get_managed_objects every
+    iteration that takes a node off the work list also puts that node's children on it before the next node is taken
+    (or the walk ends with an error). A `continue` placed before the `extend(children)` hides everything below an
+    interface-less intermediate node from GetManagedObjects while the per-object signals are still sent."""
+    cos = [b for b in f.children.get(NODE + "::get_managed_objects", []) if b.kind == "coroutine" and b.crate == "zbus"]
+    body = ctx.one(cos, "coroutine of Node::get_managed_objects")
+    pops = [c for c in mir.calls(body) if c.callee.rsplit("::", 1)[-1] in ("pop", "pop_front", "pop_back", "next") and
+            ("Vec" in c.callee or "VecDeque" in c.callee) and "Node" in (c.c.get("fnargs") or c.c.get("destty") or "")]
+    exts = []
+    for c in mir.calls(body):
+        if c.callee.rsplit("::", 1)[-1] in ("extend", "push", "push_back", "append", "extend_from_slice") and len(c.args) > 1:
+            o = mir.origin(body, c.args[1])
+            src = o[1] if o[0] == "call" else None
+            ok = False
+            if src is not None and src.args:
+                so = mir.origin(body, src.args[0])
+                if so[0] in ("place", "ref") and "children" in mir.place_fields(so[1]):
+                    ok = True
+            if o[0] in ("place", "ref") and "children" in mir.place_fields(o[1]):
+                ok = True
+            if ok:
+                exts.append(c)
+    ctx.floor("WALK-ALL", "work-list pops in get_managed_objects", len(pops), 1)
+    ctx.floor("WALK-ALL", "pushes of a node's children onto the work list", len(exts), 1)
+    eb = {c.b for c in exts}
+    for pcall in pops:
+        if pcall.c["t"] is None:
+            continue
+        back = mir.reachable(body, [pcall.c["t"]], avoid=eb)
+        ok = pcall.b not in back
+        ctx.ob("WALK-ALL", "get_managed_objects:children-pushed-every-iteration", ok,
+               "every path from taking a node to taking the next one pushes that node's children" if ok else
+               "the next node can be taken without having pushed the current node's children: objects below it are missing "
+               "from GetManagedObjects / the manager's InterfacesAdded burst", pcall.where)
+
+
 def run(ctx):
     ctx.explanation = (
         "Static rules over MIR of zbus (K1): in ObjectServer::add_arc_interface and ::remove, reachability from the 'changed' edge "
@@ -515,3 +552,4 @@ def run(ctx):
     removed_rules(ctx, f)
     manager_path_rule(ctx, f)
     filter_sibling(ctx, f)
+    walk_all(ctx, f)
